@@ -568,6 +568,13 @@ func (p *Parser) parseProjectionRHS(bindingPower int) (ASTNode, error) {
 	if bindingPowers[current] < 10 {
 		return ASTNode{nodeType: ASTIdentity}, nil
 	} else if current == tLbracket {
+		// Directly after a projection only an index, a slice or a list
+		// wildcard may follow; a multi-select list needs a dot.
+		next := p.lookahead(1)
+		if next != tNumber && next != tColon && !(next == tStar && p.lookahead(2) == tRbracket) {
+			p.advance()
+			return ASTNode{}, p.syntaxError("Expected tNumber, tColon or tStar, received: " + p.current().String())
+		}
 		return p.parseExpression(bindingPower)
 	} else if current == tFilter {
 		return p.parseExpression(bindingPower)
